@@ -3,7 +3,6 @@ package main
 import (
 	"bytes"
 	"context"
-	"time"
 	"encoding/json"
 	"errors"
 	"flag"
@@ -11,6 +10,7 @@ import (
 	"math/rand"
 	"os"
 	"strings"
+	"time"
 
 	"github.com/jamf/regatta/storage/kv"
 	dbsm "github.com/lni/dragonboat/v4/statemachine"
